@@ -47,6 +47,16 @@ Theorem latest_unexpired_cache : forall interval t0 ds0 its g w key ds r w',
 Proof. exact cache_get_c. Qed.
 Print Assumptions latest_unexpired_cache.
 
+(* ---- what "not flushed or evicted" rests on: a key leaves the dict only by flush, by a lookup
+   of that very key (which then found it expired and returned None), or during put/set_max_size;
+   it enters only by put *)
+Theorem key_set_changes : forall m t0 its g w cl ds r w' x,
+  mono its -> lru_reach m t0 its g w -> nonneg ds ->
+  wstep lru_step (Call cl ds) w = Ok (Some r, w') ->
+  keyset_rule cl (has (fst w)) (has (fst w')) x.
+Proof. exact lru_keyset_l. Qed.
+Print Assumptions key_set_changes.
+
 (* ---- LRU bound: after every call of every history, len(data) <= max_size (and max_size >= 1);
    set_max_size included *)
 Theorem lru_bound : forall m t0 its g w, mono its -> lru_reach m t0 its g w ->
